@@ -483,7 +483,7 @@ def run(tier: str, replay: str | None = None):
             attributed = False
             # inside the theorem's guard nothing is attributable: model = spec there
             if "model" in r and not r["okb"] and r["model"] == r["impl"] and (not bad_e2e or r["e2e"] == (not r["impl"])):
-                for clause in ("variadic_member", "literal_dedup", "typeddict_nonstr_key", "str_bytes_by_type"):
+                for clause in ("variadic_member", "typeddict_nonstr_key", "str_bytes_by_type"):
                     fid = f"C03-{clause.replace('_', '-')}"
                     if r["clauses"][clause] and fid in findings:
                         rep.known(fid, findings[fid]["what"])
